@@ -38,18 +38,30 @@ structure Prob where
   Dub : List Float
   DNlb : List Float
   DNub : List Float
+  dA : Array Float
+  dB : Array Float
+  dHm : Array Float
+  dw : Array Float
+  dCc : Array Float
 
 @[inline] def ga (a : Array Float) (i : Nat) : Float := a.getD i 0
 @[inline] def gl (a : List Float) (i : Nat) : Float := a.getD i 0
 
-def Prob.Acur (p : Prob) (i j : Nat) (u : List Float) : Float := Id.run do
-  let mut a := ga p.A (i * p.nx + j)
+/-- time-varying coefficients: `A_t = A + t·dA`, … (every stage function depends on its stage index) -/
+def Prob.At (p : Prob) (t ij : Nat) : Float := ga p.A ij + Float.ofNat t * ga p.dA ij
+def Prob.Bt (p : Prob) (t ik : Nat) : Float := ga p.B ik + Float.ofNat t * ga p.dB ik
+def Prob.Hmt (p : Prob) (t ij : Nat) : Float := ga p.Hm ij + Float.ofNat t * ga p.dHm ij
+def Prob.wt (p : Prob) (t i : Nat) : Float := ga p.w i + Float.ofNat t * ga p.dw i
+def Prob.Cct (p : Prob) (t ij : Nat) : Float := ga p.Cc ij + Float.ofNat t * ga p.dCc ij
+
+def Prob.Acur (p : Prob) (t i j : Nat) (u : List Float) : Float := Id.run do
+  let mut a := p.At t (i * p.nx + j)
   for k in [0:p.nu] do
     a := a + ga p.Cb ((i * p.nx + j) * p.nu + k) * gl u k
   return a
 
-def Prob.Bcur (p : Prob) (i k : Nat) (x : List Float) : Float := Id.run do
-  let mut b := ga p.B (i * p.nu + k)
+def Prob.Bcur (p : Prob) (t i k : Nat) (x : List Float) : Float := Id.run do
+  let mut b := p.Bt t (i * p.nu + k)
   for j in [0:p.nx] do
     b := b + ga p.Cb ((i * p.nx + j) * p.nu + k) * gl x j
   return b
@@ -58,33 +70,33 @@ def Prob.f (p : Prob) (t : Nat) (x u : List Float) : List Float :=
   (List.range p.nx).map fun i => Id.run do
     let mut acc := Float.ofNat t * ga p.e i
     for j in [0:p.nx] do
-      acc := acc + ga p.A (i * p.nx + j) * gl x j
+      acc := acc + p.At t (i * p.nx + j) * gl x j
     for k in [0:p.nu] do
-      acc := acc + ga p.B (i * p.nu + k) * gl u k
+      acc := acc + p.Bt t (i * p.nu + k) * gl u k
     for j in [0:p.nx] do
       for k in [0:p.nu] do
         acc := acc + (ga p.Cb ((i * p.nx + j) * p.nu + k) * gl x j) * gl u k
     return acc
 
-def Prob.gradFProd (p : Prob) (_t : Nat) (x u q : List Float) : List Float :=
+def Prob.gradFProd (p : Prob) (t : Nat) (x u q : List Float) : List Float :=
   ((List.range p.nx).map fun j => Id.run do
     let mut acc : Float := 0
     for i in [0:p.nx] do
-      acc := acc + p.Acur i j u * gl q i
+      acc := acc + p.Acur t i j u * gl q i
     return acc) ++
   ((List.range p.nu).map fun k => Id.run do
     let mut acc : Float := 0
     for i in [0:p.nx] do
-      acc := acc + p.Bcur i k x * gl q i
+      acc := acc + p.Bcur t i k x * gl q i
     return acc)
 
-def Prob.h (p : Prob) (_t : Nat) (x u : List Float) : List Float :=
+def Prob.h (p : Prob) (t : Nat) (x u : List Float) : List Float :=
   (List.range p.nh).map fun i => Id.run do
     let mut acc : Float := 0
     for j in [0:p.nx] do
-      acc := acc + ga p.Hm (i * (p.nx + p.nu) + j) * gl x j
+      acc := acc + p.Hmt t (i * (p.nx + p.nu) + j) * gl x j
     for k in [0:p.nu] do
-      acc := acc + ga p.Hm (i * (p.nx + p.nu) + p.nx + k) * gl u k
+      acc := acc + p.Hmt t (i * (p.nx + p.nu) + p.nx + k) * gl u k
     return acc
 
 def Prob.hN (p : Prob) (x : List Float) : List Float :=
@@ -97,7 +109,7 @@ def Prob.hN (p : Prob) (x : List Float) : List Float :=
 def Prob.l (p : Prob) (t : Nat) (h : List Float) : Float := Id.run do
   let mut acc : Float := 0
   for i in [0:h.length] do
-    acc := acc + (0.5 * ((ga p.w i * gl h i) * gl h i) + (ga p.g i + Float.ofNat t * ga p.d i) * gl h i)
+    acc := acc + (0.5 * ((p.wt t i * gl h i) * gl h i) + (ga p.g i + Float.ofNat t * ga p.d i) * gl h i)
   return acc
 
 def Prob.lN (p : Prob) (h : List Float) : Float := Id.run do
@@ -107,7 +119,7 @@ def Prob.lN (p : Prob) (h : List Float) : Float := Id.run do
   return acc
 
 def Prob.dl (p : Prob) (t : Nat) (h : List Float) (i : Nat) : Float :=
-  ga p.w i * gl h i + (ga p.g i + Float.ofNat t * ga p.d i)
+  p.wt t i * gl h i + (ga p.g i + Float.ofNat t * ga p.d i)
 def Prob.dlN (p : Prob) (h : List Float) (i : Nat) : Float := ga p.wN i * gl h i + ga p.gN i
 
 def Prob.qr (p : Prob) (t : Nat) (xu h : List Float) : List Float :=
@@ -115,7 +127,7 @@ def Prob.qr (p : Prob) (t : Nat) (xu h : List Float) : List Float :=
     if p.nh > 0 then Id.run do
       let mut acc : Float := 0
       for i in [0:p.nh] do
-        acc := acc + ga p.Hm (i * (p.nx + p.nu) + j) * p.dl t h i
+        acc := acc + p.Hmt t (i * (p.nx + p.nu) + j) * p.dl t h i
       return acc
     else p.dl t xu j
 
@@ -132,7 +144,7 @@ def Prob.c (p : Prob) (t : Nat) (x : List Float) : List Float :=
   (List.range p.nc).map fun i => Id.run do
     let mut acc := Float.ofNat t * ga p.ce i
     for j in [0:p.nx] do
-      acc := acc + ga p.Cc (i * p.nx + j) * gl x j
+      acc := acc + p.Cct t (i * p.nx + j) * gl x j
     acc := acc + ga p.cq i * (gl x (i % p.nx) * gl x (i % p.nx))
     return acc
 
@@ -144,18 +156,18 @@ def Prob.cN (p : Prob) (x : List Float) : List Float :=
     acc := acc + ga p.cqN i * (gl x (i % p.nx) * gl x (i % p.nx))
     return acc
 
-def Prob.Jc (p : Prob) (i j : Nat) (x : List Float) : Float :=
-  let v := ga p.Cc (i * p.nx + j)
+def Prob.Jc (p : Prob) (t i j : Nat) (x : List Float) : Float :=
+  let v := p.Cct t (i * p.nx + j)
   if j == i % p.nx then v + (2 * ga p.cq i) * gl x j else v
 def Prob.JcN (p : Prob) (i j : Nat) (x : List Float) : Float :=
   let v := ga p.CcN (i * p.nx + j)
   if j == i % p.nx then v + (2 * ga p.cqN i) * gl x j else v
 
-def Prob.gradCProd (p : Prob) (_t : Nat) (x q : List Float) : List Float :=
+def Prob.gradCProd (p : Prob) (t : Nat) (x q : List Float) : List Float :=
   (List.range p.nx).map fun j => Id.run do
     let mut acc : Float := 0
     for i in [0:p.nc] do
-      acc := acc + p.Jc i j x * gl q i
+      acc := acc + p.Jc t i j x * gl q i
     return acc
 
 def Prob.gradCProdN (p : Prob) (x q : List Float) : List Float :=
@@ -189,8 +201,9 @@ def readProb : P Prob := do
   let w ← arr; let g ← arr; let d ← arr; let wN ← arr; let gN ← arr
   let Cc ← arr; let cq ← arr; let ce ← arr; let CcN ← arr; let cqN ← arr
   let Dlb ← vec; let Dub ← vec; let DNlb ← vec; let DNub ← vec
+  let dA ← arr; let dB ← arr; let dHm ← arr; let dw ← arr; let dCc ← arr
   pure { N, nx, nu, nh, nhN, nc, ncN, A, B, Cb, e, Hm, HN, w, g, d, wN, gN, Cc, cq, ce, CcN, cqN,
-         Dlb, Dub, DNlb, DNub }
+         Dlb, Dub, DNlb, DNub, dA, dB, dHm, dw, dCc }
 
 def fmtN (l : List Nat) : String := String.intercalate " " (toString l.length :: l.map toString)
 
